@@ -252,6 +252,11 @@ func DecodePrefix(r *R, t *Type) error {
 	return nil
 }
 
+// LCKeyWidth, when larger than what a dictionary needs, makes the reference
+// encoder use that key type (1: UInt16, 2: UInt32, 3: UInt64) for
+// LowCardinality columns. Set per scenario by the generators.
+var LCKeyWidth int
+
 // ---- data ----
 
 func uuidWire(s string) []byte {
@@ -450,6 +455,10 @@ func EncodeData(w *W, t *Type, vals []any) error {
 			kt = 1
 		default:
 			kt = 2
+		}
+		// a server is free to use wider keys than the dictionary needs
+		if LCKeyWidth > kt && LCKeyWidth <= 3 {
+			kt = LCKeyWidth
 		}
 		w.I64(int64(kt) | 1<<9 | 1<<10) // HasAdditionalKeys | NeedUpdateDictionary
 		w.I64(int64(len(dict)))
